@@ -287,7 +287,10 @@ def number(ctx, terminator=never):
     raise reports.RecoverableError("Local label, not a number")
 
 
-radix50_chars = Parser.regex("[" + re.escape(radix50.TABLE.replace(" ", "")) + "]+", skip_whitespace_before=False)
+# Both letter cases are listed explicitly instead of matching case-insensitively:
+# Unicode case folding would also let 'ı', 'ſ', 'K' (Kelvin sign) or 'İ' through,
+# which are not radix-50 characters.
+radix50_chars = Parser.regex("[" + re.escape(radix50.TABLE.replace(" ", "") + radix50.TABLE.replace(" ", "").lower()) + "]+", skip_whitespace_before=False, case_sensitive=True)
 
 @Parser
 def radix50_literal(ctx):
